@@ -407,13 +407,13 @@ def _find_witness(actual, expected, argspecs, names, lane_bits, seed, env_ok, wa
         nl = max([b // lb for (b, lb, dom) in argspecs if lb] + [1])
         step = 1 if EXTRA_UNIFORM[0] else nl
         chunks = []
+        for pt in pts:
+            if pt.get("_uniform"):
+                chunks.append([pt] * nl)                              # a point that must be presented in every lane at once
         plain = [pt for pt in pts if not pt.get("_uniform")]
         for c0 in range(0, len(plain), step):
             chunk = plain[c0:c0 + step]
             chunks.append(chunk + [chunk[0]] * (nl - len(chunk)))     # one point per lane (the same point in every lane if uniform)
-        for pt in pts:
-            if pt.get("_uniform"):
-                chunks.append([pt] * nl)                              # a point that must be presented in every lane at once
         for chunk in chunks:
             args = []
             for ai, (b, lb, dom) in enumerate(argspecs):
@@ -429,7 +429,9 @@ def _find_witness(actual, expected, argspecs, names, lane_bits, seed, env_ok, wa
                     v = dom(v)
                 args.append(v)
             ex.append(args)
-        probes = ex + probes
+        # a first slice of the structural probes (dependency differences, cross-lane) stays ahead of the rule's
+        # points: a long point list must not use up the budget before any of them is tried
+        probes = probes[:170] + ex + probes[170:]
     budget += len(probes)
     ne = 0
     for args in itertools.chain(probes, gen_envs(argspecs, seed)):
